@@ -2011,6 +2011,11 @@ func (s *Store) ReadFrom(r io.Reader) (int64, error) {
 	// needs to be reregistered on the next change.
 	s.cdcRegistered.Unset()
 
+	// The database has been replaced, so record that it changed as of the latest
+	// applied index. Otherwise anything watching for database changes (such as
+	// automatic backups) would not notice the boot.
+	s.dbAppliedIdx.Store(s.raft.AppliedIndex())
+
 	// Snapshot, so we load the new database into the Raft system.
 	if err := s.snapshotStore.SetDueNext(snapshot.Full); err != nil {
 		s.logger.Fatalf("failed to set full snapshot needed: %s", err)
